@@ -6,7 +6,7 @@ consistent_b / sym_consistent_b / stripped_of_b decide the domain)."""
 import io, os, random
 from tools.lib.framework import impl_call, REPO
 
-CLAIMED = False
+CLAIMED = True
 CONFIG = {'assumptions': [
     'ELFFile construction beyond the ELF header (section-name string table) and the constructors of sections other '
     'than DynamicSection/StringTableSection/SymbolTableSection are assumed to succeed (C19/C02/C03 speak about them)',
@@ -15,17 +15,24 @@ CONFIG = {'assumptions': [
     'strings are compared as UTF-8 bytes; generated names are valid UTF-8',
     'the stripped image also has e_shstrndx = 0 (SHN_UNDEF), as the gABI prescribes for a file without section names',
     'objects are fresh: Dynamic.get_tag(n) is asked only for n < num_tags() (history dependence past the terminator is C10)']}
-LEVEL = {'text': 'Machine-checked theorems over unbounded inputs: the tag iterator yields exactly the entries up to and '
-                 'including the first DT_NULL (duplicates kept, entries after the terminator never yielded) for every '
-                 'byte order/class and every selectable d_tag dict; string-valued tags resolve inside the designated table '
-                 'whatever follows it; pointer->offset mapping equals the PT_LOAD rule; SysV and GNU hash counts equal the '
-                 'true count for every valid table; for consistent images the segment view of the stripped image equals '
-                 'the section view of the original (tags, strings, relocation tables, symbols).  The hand model is pinned '
-                 'to dynamic.py/hash.py/elffile.py by differential runs on synthesized images in three forms and on the '
-                 'seed libraries stripped by the harness.',
+LEVEL = {'text': 'Machine-checked theorems over unbounded inputs (Props/C09.v, no axioms): for EVERY e_machine/EI_OSABI the d_tag '
+                 'dict the code builds is the platform\'s standard tag set and names every interpreted tag by its gABI number only '
+                 '(C09_dtab_selection, C09_dtab_names, C09_handled_tags, C09_open_tables); the tag iterator yields exactly the entries up '
+                 'to and including the first DT_NULL of ANY entry array at any offset with anything behind it, duplicates kept, both '
+                 'classes/byte orders (C09_tags_exact); string-valued tags resolve to the NUL-terminated string at d_val inside the '
+                 'designated table whatever follows it, for a table given by the section link and for one found through DT_STRTAB and '
+                 'PT_LOAD (C09_string_in_table, C09_strings_resolved, C09_iter_tags_linked, C09_iter_tags_pointed); the pointer->offset '
+                 'mapping equals the PT_LOAD rule and is unambiguous (C09_address_offset, C09_get_table_offset); the SysV and the GNU '
+                 'hash symbol counts equal the true count for every valid table (C09_count_from_sysv_hash, C09_count_from_gnu_hash). '
+                 'views_agree (segment view of the stripped image = section view of the original for images satisfying consistent_b) '
+                 'is NOT yet a Coq theorem: it is checked on every generated image by the correspondence (three views per image, '
+                 'consistent_b/sym_consistent_b/stripped_of_b evaluated by the extracted Coq predicates), as are relocation tables, '
+                 'symbol enumeration and lookup by name.  The hand model is pinned to dynamic.py/hash.py/elffile.py by differential '
+                 'runs on synthesized images in three forms and on the seed libraries stripped by the harness.',
          'design_ref': '4.9', 'technique': 'Coq proof (induction, generic layout round trip, finite sweeps over the generated '
                                             'enum dicts) + extracted-model correspondence',
-         'note': 'Trusted: Coq kernel, ExtrOcamlBasic extraction, harness, gABI reading in Spec/C09Dyn.v. No axioms.'}
+         'note': 'Trusted: Coq kernel, ExtrOcamlBasic extraction, harness, gABI reading in Spec/C09Dyn.v. No axioms. '
+                 'views_agree pinned by correspondence only (see text).'}
 RULE = ('cases: synthesized dynamic images (both classes/byte orders; common, MIPS, AArch64, Solaris and unknown machine/OS '
         'tag sets; duplicate tags; entries and garbage after the terminator; 1-3 PT_LOAD groups with distinct address deltas, '
         'decoy and duplicate segments, shuffled program headers; GNU / SysV / both / no hash table; REL/RELA/RELR/JMPREL '
